@@ -95,3 +95,36 @@ func VH_gcs_nbytes_roundtrip_at_size_boundaries() {
 	}
 	vReach("end")
 }
+
+// C20(3''): multisets: a filter built from elements that contain a DUPLICATE (two equal hash values, i.e. a zero
+// delta in the Golomb-coded stream - what also happens when two distinct elements collide) still matches every one
+// of its elements, through all four query paths, whatever sorts after the duplicate: 5 concrete elements, any one of
+// them repeated, any element queried alone or together with a non-member (SipHash evaluated exactly; P = 19,
+// M = 784931 as in BIP158).
+//verif:opts reach=end max_steps=40000000
+func VH_gcs_duplicate_elements_still_match() {
+	var key [KeySize]byte
+	for i := range key {
+		key[i] = byte(3*i + 1)
+	}
+	data := [][]byte{{0x51}, {0x00, 0x14, 0x01}, {0x76, 0xa9}, {0xa9, 0x14, 0x02, 0x03}, {0x6a}}
+	dup := vNondetLen("dup", len(data)-1)
+	all := append(append([][]byte{}, data...), data[dup])
+	f, err := BuildGCSFilter(19, 784931, key, all)
+	vAssert(err == nil && f.N() == uint32(len(all)), "filter built; N counts the duplicate")
+	e := data[vNondetLen("query", len(data)-1)]
+	other := []byte{0xde, 0xad}
+	ok, err := f.Match(key, e)
+	vAssert(err == nil && ok, "Match finds every element of the multiset")
+	q := [][]byte{e}
+	if vNondetBool("withOther") {
+		q = [][]byte{other, e}
+	}
+	ok1, e1 := f.ZipMatchAny(key, q)
+	ok2, e2 := f.HashMatchAny(key, q)
+	ok3, e3 := f.MatchAny(key, q)
+	vAssert(e1 == nil && ok1, "ZipMatchAny finds it")
+	vAssert(e2 == nil && ok2, "HashMatchAny finds it")
+	vAssert(e3 == nil && ok3, "MatchAny finds it")
+	vReach("end")
+}
